@@ -27,6 +27,7 @@ class Batch:
 
     def evaluation(self, n=1):
         self.counters["evaluations"] += n
+        WATCHDOG_FIRED[0] = False  # a new case starts
 
     def sig(self, s):
         self.sigs.add(s if isinstance(s, str) else repr(s))
@@ -36,6 +37,9 @@ class Batch:
             self.samples.append(s)
 
     def violation(self, kind, detail, case=None, finding_key=None):
+        if WATCHDOG_FIRED[0]:
+            self.count("dropped_after_watchdog_fired", kind)
+            return
         if len(self.violations) < 60:
             self.violations.append(
                 {
@@ -64,11 +68,20 @@ class CaseTimeout(BaseException):
     code under test into an observation) can never mistake the watchdog for a behaviour of the repository"""
 
 
+# True from the moment a case's watchdog fired until the next case starts.  The CaseTimeout raised by the handler does
+# not always arrive as such: raised inside a Python callback of SQLite (a user-defined function) it is swallowed and comes
+# back as DatabaseError "user-defined function raised exception".  Whatever an oracle concludes after its watchdog fired
+# is not a verdict on the repository: Batch.violation drops it (counted).
+WATCHDOG_FIRED = [False]
+
+
 @contextmanager
 def time_limit(seconds):
     def handler(signum, frame):
+        WATCHDOG_FIRED[0] = True
         raise CaseTimeout()
 
+    WATCHDOG_FIRED[0] = False
     old = signal.signal(signal.SIGALRM, handler)
     signal.setitimer(signal.ITIMER_REAL, seconds)
     try:
